@@ -258,6 +258,16 @@ func checkC02(ctx *Ctx) {
 	}
 	// fixed: everything pre-exists; one of two outputs of a two-output task pre-exists
 	cases = append(cases, c02Case{Chain: Chain{Inputs: []string{"a.txt"}, Levels: []Level{{TwoOut: true}, {}}, Max: 2}, Pre: []string{"a.txt.L0.aux.txt"}})
+	// many skipped tasks of a process that asks for several cores per task: skipping must not cost slots, the
+	// downstream process still gets every existing file
+	{
+		ch := Chain{Inputs: []string{"a.txt", "b.txt", "c.txt", "d.txt", "e.txt", "f.txt"}, Levels: []Level{{Cores: 2}, {Cores: 1}}, Max: 4}
+		c := c02Case{Chain: ch}
+		for _, in := range ch.Inputs {
+			c.Pre = append(c.Pre, ch.pathAt(in, 0))
+		}
+		cases = append(cases, c)
+	}
 	// outputs outside the working directory (their paths contain ../): the existence check must look at the
 	// declared path, not at its image below the temp dir
 	for k, prePorts := range [][]int{{0}, {1}, {}} {
